@@ -236,6 +236,9 @@ def main(argv=None):
     ap.add_argument("--digests", action="store_true", help="print one "
                     "line per run: index and event-log digest")
     ap.add_argument("--no-evidence", action="store_true")
+    ap.add_argument("--budget", type=float, help="override the tier's "
+                    "wall-clock cap in seconds (a cap only lowers the "
+                    "number of evaluations, never changes a run)")
     args = ap.parse_args(argv)
     prop = args.property.upper()
     from simkit import perf
@@ -258,6 +261,8 @@ def main(argv=None):
     plan = dict(check.plan(args.tier))
     if args.runs:
         plan["runs"] = args.runs
+    if args.budget:
+        plan["budget_s"] = args.budget
     import psyclone
     print(f"vcheck {prop} tier={args.tier} VERIF_SEED={args.seed} "
           f"runs={plan['runs']} workers={args.workers} psyclone="
